@@ -450,6 +450,16 @@ def _reduce(num, den):
     q = poly_div_exact(num, den)
     if q is not None:
         return q, Poly.const(1)
+    # den = monomial * rest: cancel rest if it divides num (and symmetrically)
+    for swap in (False, True):
+        a, b = (num, den) if not swap else (den, num)
+        mono, rest = _split_monomial_content(b)
+        if mono and not rest.is_const() and len(rest.t) < len(b.t) + 1 and rest != b:
+            qq = poly_div_exact(a, rest)
+            if qq is not None:
+                a2, b2 = qq, Poly({mono: Fraction(1)})
+                num, den = (a2, b2) if not swap else (b2, a2)
+                return _reduce(num, den) if not den.is_const() else (num.scale(1 / den.const_value()), Poly.const(1))
     q = poly_div_exact(den, num)
     if q is not None and not q.is_zero():
         # num/den = 1/q
@@ -457,6 +467,25 @@ def _reduce(num, den):
         s = -1 if lc < 0 else 1
         return Poly.const(s), q.scale(s)
     return num, den
+
+
+def _split_monomial_content(p):
+    """p = mono * rest with mono the gcd of its monomials (None if trivial)"""
+    common = None
+    for m in p.t:
+        d = dict(m)
+        common = d if common is None else {a: min(e, d.get(a, 0)) for a, e in common.items() if a in d}
+        if not common:
+            return None, p
+    t = {}
+    for m, c in p.t.items():
+        d = dict(m)
+        for a, e in common.items():
+            d[a] -= e
+            if d[a] == 0:
+                del d[a]
+        t[tuple(sorted(d.items(), key=lambda ae: _akey(ae[0])))] = c
+    return tuple(sorted(common.items(), key=lambda ae: _akey(ae[0]))), Poly(t)
 
 
 def poly_div_exact(a, b):
@@ -792,9 +821,23 @@ class PW:
         return PW.ite(self.cond.map_atoms(fn), self.a.map_atoms(fn), self.b.map_atoms(fn))
 
     def subs(self, mapping):
+        """mapping values may be numbers, Poly, Rat or PW"""
+        if any(isinstance(v, PW) and not v.is_leaf() for v in mapping.values()):
+            return self._subs_pw(mapping)
+        mapping = {k: (v.leaf if isinstance(v, PW) else v) for k, v in mapping.items()}
         if self.is_leaf():
             return PW(leaf=self.leaf.subs(mapping))
         return PW.ite(self.cond.subs(mapping), self.a.subs(mapping), self.b.subs(mapping))
+
+    def _subs_pw(self, mapping):
+        if not self.is_leaf():
+            flat = {k: v for k, v in mapping.items() if not (isinstance(v, PW) and not v.is_leaf())}
+            for a in self.cond.p.all_atoms():
+                if a in mapping and a not in flat:
+                    raise AlgebraError("condition on a piecewise value")
+            flat = {k: (v.leaf if isinstance(v, PW) else v) for k, v in flat.items()}
+            return PW.ite(self.cond.subs(flat), self.a._subs_pw(mapping), self.b._subs_pw(mapping))
+        return _poly_subs_pw(self.leaf.num, mapping) / _poly_subs_pw(self.leaf.den, mapping)
 
     def simplify_nested(self, known=()):
         """remove branches decided by an enclosing identical condition"""
@@ -856,6 +899,27 @@ class PW:
         if self.is_leaf():
             return repr(self.leaf)
         return "(%r if %r else %r)" % (self.a, self.cond, self.b)
+
+
+def _poly_subs_pw(p, mapping):
+    res = PW.of(Poly())
+    for m, c in p.t.items():
+        term = PW.of(Poly.const(c))
+        for a, e in m:
+            if a in mapping:
+                v = PW.of(mapping[a])
+            elif a[0] == "fn":
+                arg = fn_arg(a)
+                if arg.all_atoms() & set(mapping):
+                    narg = PW.of(arg)._subs_pw(mapping)
+                    v = narg.map_leaves(lambda r, nm=a[1]: mk_fn(nm, r))
+                else:
+                    v = PW.of(Poly.atom(a))
+            else:
+                v = PW.of(Poly.atom(a))
+            term = term * (v ** e)
+        res = res + term
+    return res
 
 
 def const(c):
